@@ -49,6 +49,18 @@ BUILT = {
  "C15": ("labelled-tampering monitor over signatures of all five key types (all bits of all three segments, other keys, malformed forms)",
          "JWS produced by the library's signers must verify under the matching JWK with unchanged payload and fail under other keys, after any single-bit change of the decoded header / payload / signature, with wrong-length signatures, unsupported keys and malformed compacts; signatures with leading zero bytes in r/s are searched for on every EC curve.",
          "Signature unforgeability; harness base64url codec.", "DESIGN.md §2 C15"),
+ "C17": ("end-to-end monitor with harness-side decoding of the long-form DID + labelled rejection classes (every single-character substitution, re-encodings, namespace prefixes)",
+         "Documents are created through the VDR, the resulting DID is decoded with the harness codec (strict base64url, reference JCS, reference suffix hash), read back and compared; repeated creations must give one DID; every single-character substitution, each re-encoding of the initial state, swapped suffixes, short forms and prefix-related namespaces must be rejected by the document handler.",
+         "Harness codec; did-go document parsing to read the resolved document back.", "DESIGN.md §2 C17"),
+ "C18": ("reference-model monitor (small reference transformer) over generated states, all 32 option combinations and adversarial operation lists",
+         "The complete expected document and metadata are built by a reference transformer from the statement and compared with the real transformer's output; operation lists are checked as sorted by (time, number) and as a permutation of the de-duplicated input.",
+         "Reference transformer, own base58 encoder.", "DESIGN.md §2 C18"),
+ "C19": ("crash / fatal-error / hang oracle by process supervision: worker subprocess per batch with journal, ulimit -v, per-case watchdog; thorough tier under the -race build (checkptr)",
+         "Millions of hostile inputs (structure-aware corruption of valid operations incl. re-signed deltas, RFC 6902 hostility, unexpected operation types, truncations at every offset, separator floods, deep nesting) are handed to 27 entry points; every call is journaled first so that a process-fatal crash is attributed to its input. Two json-patch fatal classes are listed known findings with exact fingerprints; any other panic, fatal error or timeout is a violation.",
+         "Inputs <= 64 KiB; watchdog two orders of magnitude above the measured worst case; allocation bombs below the address-space limit are observations.", "DESIGN.md §2 C19, §3"),
+ "C20": ("Go race detector over stress runs + sequential-vs-concurrent result comparison + offline linearizability check (porcupine) of recorded registry histories",
+         "Shared instances of every component are driven by 2..32 goroutines under GOMAXPROCS 1..16 from a -race binary; race reports are collected from the GORACE log and deduplicated, every concurrent result is compared with the sequential one, and Add/ForNamespace and Register/CreateClientVersion histories recorded at the client boundary are checked per key against a sequential map model. Evidence shows overlapping call pairs and racing-lookup outcome splits actually observed.",
+         "The race detector sees only executed accesses under the produced schedules; porcupine checker; per-goroutine recorder state.", "DESIGN.md §2 C20"),
  "C16": ("round-trip + labelled-invalid-input monitor over constructed curve points (chosen leading-zero coordinates)",
          "Public points with 0..3 leading zero bytes in x (constructed by modular square root) and searched leading-zero y on all four curves plus Ed25519 keys: JWK export has the right kty/crv and full width, reads back to the same key; off-curve, wrong-width and curve-swapped JWKs must be rejected.",
          "math/big and the curve parameters of crypto/elliptic / btcec.", "DESIGN.md §2 C16"),
